@@ -874,3 +874,26 @@ func first(a, _ []byte) []byte { return a }
 //@     invariant n.pointer == (*ref).pointer && n.tag == (*ref).tag
 //@     invariant n.pointer != nil && liveRef(n)
 //@     invariant slotOf(ref, t) && ref.obj != n.pointer
+
+// ---------------------------------------------------------------------------
+// Layer D: sequences. The traversal stack q is a local sequence of references; its
+// invariant is that every pending entry is a live, well-typed reference. The iterator
+// protocol (no call of yield after it returned false) is an automatic obligation at every
+// call of the yield parameter; re-iterability is the static clause of C14.
+
+//@ spec stackOK(q) = forall(j, 0, len(q), q[j].pointer != nil && okRef(q[j]) && liveChild(q[j]))
+
+//@ func {all,backward}$1
+//@   opt casts on
+//@   requires liveRef(root) && HeapOKN() && LinkedLive()
+//@   ensures[pure] frame()
+//@   loop 1 (q)
+//@     invariant stackOK(q)
+//@   loop 2 (i)
+//@     invariant stackOK(q)
+//@   loop 3 (i)
+//@     invariant stackOK(q)
+//@   loop 4 (i)
+//@     invariant stackOK(q) && 0 - 1 <= i && i <= 256
+//@   loop 5 (i)
+//@     invariant stackOK(q) && 0 - 1 <= i && i <= 256
